@@ -230,6 +230,12 @@ func (p *parser) readFieldName() string {
 func (p *parser) readTypeName() string {
 	start := p.position
 
+	char := p.next()
+	if char < 'A' || char > 'Z' {
+		p.backup()
+		return ""
+	}
+
 	for {
 		char := p.next()
 		if (char < 'A' || char > 'Z') && (char < 'a' || char > 'z') && (char < '0' || char > '9') {
